@@ -5,14 +5,17 @@ import json, os
 def T(k, **kw): d = {"k": k}; d.update(kw); return d
 TYPES = [T("Integer"), T("Char"), T("Char", n=8), T("String"), T("String", n=255), T("Text"), T("Blob"), T("TinyInteger"), T("SmallInteger"), T("BigInteger"),
          T("TinyUnsigned"), T("SmallUnsigned"), T("Unsigned"), T("BigUnsigned"), T("Float"), T("Double"), T("Decimal"), T("Decimal", p=10, s=2), T("DateTime"), T("Timestamp"),
-         T("TimestampWithTimeZone"), T("Time"), T("Date"), T("Year"), T("Binary", n=16), T("VarBinary", n=64), T("Bit"), T("Bit", n=4), T("VarBit", n=9), T("Boolean"),
-         T("Money"), T("Money", p=12, s=4), T("Json"), T("JsonBinary"), T("Uuid"), T("Enum", name="mood", variants=["sad", "ok", "it's"]), T("Cidr"), T("Inet"), T("MacAddr"), T("LTree")]
+         T("TimestampWithTimeZone"), T("Time"), T("Date"), T("Year"), T("Binary", n=16), T("Binary", n=1), T("VarBinary", n=64), T("VarBinary"), T("String", max=True), T("Bit"), T("Bit", n=4), T("VarBit", n=9), T("Boolean"),
+         T("Money"), T("Money", p=12, s=4), T("Json"), T("JsonBinary"), T("Uuid"), T("Enum", name="mood", variants=["sad", "ok", "it's"]), T("Cidr"), T("Inet"), T("MacAddr"), T("LTree"),
+         T("Array", elem=T("Integer")), T("Array", elem=T("String", n=8)), T("Interval"), T("Interval", n=3), T("Custom", name="citext"), T("Vector", n=3)]
 def V(t, v): return {"t": t, "v": v}
 SPECS = [[], [T("NotNull")], [T("Null")], [T("Unique")], [T("PrimaryKey")], [T("Default", v=V("Int", "7"))], [T("Default", v=V("String", "it's"))],
          [T("NotNull"), T("Default", v=V("Int", "0"))], [T("Default", v=V("Int", "5")), T("NotNull")], [T("NotNull"), T("Unique")], [T("Unique"), T("NotNull")],
          [T("PrimaryKey"), T("AutoIncrement")], [T("AutoIncrement"), T("PrimaryKey")], [T("AutoIncrement"), T("NotNull"), T("PrimaryKey")],
          [T("Check", e={"k": "bin", "op": "GreaterThan", "l": {"k": "col", "n": "a"}, "r": {"k": "val", "v": V("Int", "0")}})],
          [T("NotNull"), T("Check", e={"k": "bin", "op": "NotEqual", "l": {"k": "col", "n": "a"}, "r": {"k": "val", "v": V("Int", "3")}}), T("Default", v=V("Int", "1"))],
+         [T("Check", e={"k": "bin", "op": "GreaterThan", "l": {"k": "col", "n": "a"}, "r": {"k": "val", "v": V("Int", "0")}}),
+          T("Check", e={"k": "bin", "op": "SmallerThan", "l": {"k": "col", "n": "a"}, "r": {"k": "val", "v": V("Int", "100")}})],
          [T("Generated", e={"k": "bin", "op": "Add", "l": {"k": "col", "n": "b"}, "r": {"k": "val", "v": V("Int", "1")}}, stored=True)],
          [T("Generated", e={"k": "bin", "op": "Mul", "l": {"k": "col", "n": "b"}, "r": {"k": "val", "v": V("Int", "2")}}, stored=False), T("NotNull")],
          [T("Comment", s="it's a column")], [T("Comment", s="c"), T("NotNull")], [T("Default", v=V("Bool", True))], [T("Default", v={"t": "String", "null": True})]]
@@ -21,8 +24,14 @@ EXTRAS = [{}, {"indexes": [{"cols": [{"n": "b"}, {"n": "c"}], "primary": True}]}
           {"fks": [{"from_table": "t", "from_cols": ["b"], "to_table": "p", "to_cols": ["id"]}]},
           {"checks": [{"k": "bin", "op": "SmallerThan", "l": {"k": "col", "n": "b"}, "r": {"k": "val", "v": V("Int", "100")}}]}, {"if_not_exists": True},
           {"indexes": [{"name": "ix_b", "cols": [{"n": "b"}]}]}, {"comment": "it's a table", "engine": "InnoDB"},
+          {"comment": "c", "engine": "InnoDB", "collate": "utf8mb4_unicode_ci", "character_set": "utf8mb4"}, {"engine": "MyISAM", "character_set": "latin1"}, {"comment": "only"},
+          {"collate": "utf8mb4_bin"},
           {"indexes": [{"name": "ix_h", "cols": [{"n": "b"}], "index_type": "Hash"}]}, {"indexes": [{"name": "uq_t", "cols": [{"n": "b"}, {"n": "c"}], "unique": True, "index_type": "BTree"}]},
-          {"indexes": [{"name": "ft_c", "cols": [{"n": "c"}], "index_type": "FullText"}]}]
+          {"indexes": [{"name": "ft_c", "cols": [{"n": "c"}], "index_type": "FullText"}]},
+          {"indexes": [{"cols": [{"n": "b", "o": "Desc"}, {"n": "c", "o": "Asc"}], "unique": True}]},
+          {"indexes": [{"name": "pk_bc", "cols": [{"n": "c", "o": "Desc"}, {"n": "b"}], "primary": True}]},
+          {"indexes": [{"name": "uq_p", "cols": [{"n": "c", "p": 8}, {"n": "b", "o": "Desc"}], "unique": True}]},
+          {"indexes": [{"cols": [{"n": "c", "p": 4, "o": "Desc"}], "primary": True}]}]
 COLX = {"name": "x", "type": T("Integer"), "specs": []}
 FOLLOW = [None,
           {"stmt": "table_alter", "table": "t", "ops": [{"k": "add_column", "col": {"name": "x", "type": T("String", n=16), "specs": [T("NotNull"), T("Default", v=V("String", "n/a"))]}}]},
@@ -37,6 +46,10 @@ FOLLOW = [None,
           {"stmt": "index_create", "name": "ix2", "table": "t", "cols": [{"n": "c", "o": "Desc"}, {"n": "b", "o": "Asc"}], "unique": True},
           {"stmt": "index_create", "name": "ix1", "table": "t", "cols": [{"n": "b"}], "if_not_exists": True},
           {"stmt": "index_create", "name": "ix3", "table": "t", "cols": [{"n": "b"}], "where": {"k": "bin", "op": "GreaterThan", "l": {"k": "col", "n": "b"}, "r": {"k": "val", "v": V("Int", "5")}}, "where_cols": ["b"]},
+          {"stmt": "index_create", "name": "ix8", "table": "t", "cols": [{"n": "c", "p": 8}, {"n": "b", "p": 2, "o": "Desc"}], "unique": True},
+          {"stmt": "index_create", "name": "ix9", "table": "t", "cols": [{"n": "c"}], "unique": True,
+           "wheres": [{"k": "bin", "op": "GreaterThan", "l": {"k": "col", "n": "b"}, "r": {"k": "val", "v": V("Int", "5")}}, {"k": "isnull", "e": {"k": "col", "n": "c"}, "neg": False}],
+           "where": {"k": "bin", "op": "And", "l": {"k": "bin", "op": "GreaterThan", "l": {"k": "col", "n": "b"}, "r": {"k": "val", "v": V("Int", "5")}}, "r": {"k": "isnull", "e": {"k": "col", "n": "c"}, "neg": False}}, "where_cols": ["b", "c"]},
           {"stmt": "index_create", "name": "ix4", "table": "t", "cols": [{"n": "c"}], "index_type": "Hash"},
           {"stmt": "index_create", "name": "ix5", "table": "t", "cols": [{"n": "c"}], "index_type": "FullText"},
           {"stmt": "index_create", "name": "ix6", "table": "t", "cols": [{"n": "b"}], "unique": True, "include": ["c"], "nulls_not_distinct": True},
@@ -46,6 +59,8 @@ FOLLOW = [None,
           {"stmt": "index_drop", "name": "ix1", "table": "t", "schema": "public", "if_exists": True},
           {"stmt": "index_drop", "name": "ix1", "table": "t", "schema": "public"},
           {"stmt": "table_drop", "tables": ["t"]},
+          {"stmt": "table_drop", "tables": ["t"], "if_exists": True},
+          {"stmt": "table_drop", "tables": ["nope"], "if_exists": True},
           {"stmt": "table_drop", "tables": ["t", "p"], "if_exists": True},
           {"stmt": "table_alter", "table": "t", "ops": [{"k": "modify_column", "col": {"name": "b", "type": T("BigInteger"), "specs": [T("NotNull")]}}]},
           {"stmt": "table_alter", "table": "t", "ops": [{"k": "modify_column", "col": {"name": "b", "type": T("Integer"), "specs": [T("Comment", s="x"), T("NotNull")]}}]},
@@ -57,6 +72,10 @@ FOLLOW = [None,
           {"stmt": "table_alter", "table": "t", "ops": [{"k": "drop_fk", "name": "fk_b"}]},
           {"stmt": "fk_create", "name": "fk3", "from_table": "t", "from_cols": ["b"], "to_table": "p", "to_cols": ["id"], "on_update": "Cascade"},
           {"stmt": "fk_drop", "name": "fk_b", "table": "t"},
+          {"stmt": "fk_create", "from_table": "t", "from_cols": ["b"], "to_table": "p", "to_cols": ["id"]},
+          {"stmt": "fk_create", "from_table": "t", "from_cols": ["b", "c"], "to_table": "p", "to_cols": ["id", "v"], "on_delete": "SetDefault", "on_update": "NoAction"},
+          {"stmt": "table_alter", "table": "t", "ops": [{"k": "add_fk", "fk": {"from_table": "t", "from_cols": ["b"], "to_table": "p", "to_cols": ["id"], "on_update": "Cascade"}}]},
+          {"stmt": "table_alter", "table": "t", "ops": [{"k": "add_column", "col": COLX}, {"k": "add_fk", "fk": {"from_table": "t", "from_cols": ["x"], "to_table": "p", "to_cols": ["id"]}}]},
           {"stmt": "table_truncate", "table": "t"},
           {"stmt": "type_create", "name": "mood", "values": ["sad", "ok", "it's"]},
           {"stmt": "type_alter", "name": "mood", "op": "add_value", "value": "great", "after": "ok"},
@@ -104,4 +123,27 @@ def assemble(picks):
     for f in (f1, f2):
         if FOLLOW[f] is not None:
             hist.append(FOLLOW[f])
+    return hist
+
+
+# ---- ColumnDef type-setting methods (spec/column_methods.json; read by SchemaLaw.tla as well) -------------
+import json as _json, os as _os, copy as _copy
+COL_METHODS = _json.load(open(_os.path.join(_os.path.dirname(_os.path.abspath(__file__)), "..", "spec", "column_methods.json")))
+def _col_methods_for(t):
+    out = []
+    for m, e in COL_METHODS.items():
+        if e["k"] != t.get("k") or any(f not in t for f in e["need"]) or any(f in t for f in e["forbid"]): continue
+        if m == "binary" and t.get("n") != 1: continue
+        out.append(m)
+    return out
+def annotate_methods(hist, rng, p=0.5):
+    hist = _copy.deepcopy(hist)
+    def col(c):
+        if isinstance(c, dict) and isinstance(c.get("type"), dict) and "m" not in c and rng.random() < p:
+            ms = _col_methods_for(c["type"])
+            if ms: c["m"] = rng.choice(ms)
+    for d in hist:
+        for c in d.get("cols", []) or []: col(c)
+        for o in d.get("ops", []) or []:
+            if isinstance(o, dict) and "col" in o: col(o["col"])
     return hist
